@@ -1,11 +1,31 @@
-import OH.Model.Syntax
 import OH.Model.SortedVec
+import OH.Model.Syntax
 /-
-Model of `opening-hours/src/schedule.rs` and `utils/range.rs`.  Times are minutes (0..2880).
-Core-only imports.
+Model of `opening-hours/src/schedule.rs` (`TimeRange`, `Schedule`, `IntoIter`, macro `schedule!`)
+and of the three helpers of `opening-hours/src/utils/range.rs` used by the evaluator
+(`ranges_union`, `range_intersection`, `WrappingRange::wrapping_contains`).
+
+One Lean definition per Rust function, same control flow, bug for bug.
+
+* Times (`ExtendedTime`) are `Nat` minutes from midnight (0..=2880): by C19 the derived order on
+  `ExtendedTime` is the order of `mins_from_midnight` and the conversion is a bijection, so nothing
+  is lost.  `MIDNIGHT_00 = 0`, `MIDNIGHT_24 = 1440`.
+* Comments (`UniqueSortedVec<Arc<str>>`) are `List String`, combined with `SortedVec.union`
+  (the `Ord` of `str` is byte-wise lexicographic = code-point lexicographic = Lean's `String` order).
+* There is no integer arithmetic in these functions (only comparisons, `min`, `max`), hence no
+  overflow site.  The only panic site is the `assert!` of `IntoIter::pre_yield`
+  ("infinite loop detected", schedule.rs:243), modelled explicitly by `NextResult.panic`;
+  `OH.Props.C14.iter_no_panic` proves it unreachable for every schedule the API can build.
+  The `unwrap()`s in `insert` and `next` directly follow a successful `last()`/`peek()` and are
+  matched structurally.
+
+Core-only imports: this file is linked into the compiled driver.
 -/
 namespace OH.Model
 
+-- `Kind` (`RuleKind`, declaration order Open, Closed, Unknown) is defined in OH/Model/Syntax.lean
+
+/-- `schedule::TimeRange`; `range = s..e` in minutes -/
 structure TimeRange where
   s : Nat
   e : Nat
@@ -13,141 +33,325 @@ structure TimeRange where
   comments : List String
   deriving DecidableEq, Repr, Inhabited
 
+/-- `schedule::Schedule` (the field `inner`) -/
 abbrev Schedule := List TimeRange
 
-/-- stable insertion by key (model of `sort_unstable_by_key`; equal keys keep the input order, which is
-what Rust's small-slice insertion sort does; the order of equal keys is observable only through D6) -/
-def insertByStart (x : Nat × Nat) : List (Nat × Nat) → List (Nat × Nat)
-  | [] => [x]
-  | y :: ys => if x.1 ≤ y.1 then x :: y :: ys else y :: insertByStart x ys
-
-def sortByStart : List (Nat × Nat) → List (Nat × Nat)
-  | [] => []
-  | x :: xs => insertByStart x (sortByStart xs)
-
-/-- `ranges_union` -/
-def mergeSorted (cur : Nat × Nat) : List (Nat × Nat) → List (Nat × Nat)
-  | [] => [cur]
-  | it :: rest =>
-    if cur.2 ≥ it.1 then mergeSorted (cur.1, if it.2 > cur.2 then it.2 else cur.2) rest
-    else cur :: mergeSorted it rest
-
-def rangesUnion (rs : List (Nat × Nat)) : List (Nat × Nat) :=
-  match sortByStart rs with
-  | [] => []
-  | c :: rest => mergeSorted c rest
-
-/-- `range_intersection` -/
-def rangeIntersection (a b : Nat × Nat) : Option (Nat × Nat) :=
-  let r := (max a.1 b.1, min a.2 b.2)
-  if r.1 < r.2 then some r else none
-
-/-- `WrappingRange::wrapping_contains` for `RangeInclusive` -/
-def wrappingContains (lo hi x : Nat) : Bool :=
-  if lo ≤ hi then lo ≤ x && x ≤ hi else lo ≤ x || x ≤ hi
+/-- `UniqueSortedVec::union` on comments -/
+abbrev cunion (a b : List String) : List String := SortedVec.union a b
 
 namespace Schedule
 
-/-- the merging loop of `from_ranges` after the sort -/
-def mergeLoop (k : Kind) : TimeRange → List TimeRange → List TimeRange
-  | cur, [] => [cur]
-  | cur, nxt :: rest =>
-    if cur.e ≥ nxt.s then
-      mergeLoop k { cur with e := max cur.e nxt.e, comments := SortedVec.union cur.comments nxt.comments } rest
-    else cur :: mergeLoop k nxt rest
+/-- `Schedule::new()` -/
+def new : Schedule := []
 
-/-- `Schedule::from_ranges` -/
-def fromRanges (rs : List (Nat × Nat)) (k : Kind) (c : List String) : Schedule :=
-  match (sortByStart (rs.filter (fun r => r.1 < r.2))).map (fun r => (⟨r.1, r.2, k, c⟩ : TimeRange)) with
+/-- `Schedule::is_empty` -/
+def isEmpty (s : Schedule) : Bool := List.isEmpty s
+
+/-! ### `from_ranges` -/
+
+/-- one insertion step of the model of `inner.sort_unstable_by_key(|rng| rng.range.start)`.
+`x` precedes every element of the list in the input, and is placed before the elements with the
+same key: the result is the *stable* sort.
+
+NOTE (unspecified behaviour of the Rust code): `sort_unstable_by_key` does not specify the order of
+elements with equal starts.  All elements of one `from_ranges` call share kind and comments, so
+elements with equal starts differ only by their end, and the order matters only because of the
+defect in the merge loop below (with `max` the result does not depend on it).  The current standard
+library uses insertion sort for slices of at most 20 elements, which is stable; the model follows
+that, and the correspondence suite stays within 20 ranges per call. -/
+def sortInsert (x : TimeRange) : List TimeRange → List TimeRange
+  | [] => [x]
+  | y :: ys => if y.s < x.s then y :: sortInsert x ys else x :: y :: ys
+
+def sortByStart : List TimeRange → List TimeRange
   | [] => []
-  | t :: ts => mergeLoop k t ts
+  | x :: xs => sortInsert x (sortByStart xs)
 
-def isAlwaysClosed (s : Schedule) : Bool := s.all (·.kind == .closed)
+/-- the `while i + 1 < inner.len()` loop of `from_ranges` (schedule.rs:93-102) AS ORIGINALLY WRITTEN:
+elements before `i` are final, `cur` is `inner[i]`, the list argument is `inner[i+1..]`.
+Line 95 assigned the end of the right-hand range instead of the maximum of both ends (defect D6). -/
+def mergeBuggyLoop (cur : TimeRange) : List TimeRange → List TimeRange
+  | [] => [cur]
+  | u :: rest =>
+    if cur.e ≥ u.s then
+      mergeBuggyLoop { cur with e := u.e, comments := cunion cur.comments u.comments } rest
+    else cur :: mergeBuggyLoop u rest
 
-/-- first pass of `insert`: ranges starting before the end of `ins`, clipped to its start;
-ranges that become empty give their comments to `ins` -/
-def before : List TimeRange → TimeRange → List TimeRange × TimeRange
-  | [], ins => ([], ins)
-  | t :: ts, ins =>
-    if t.s < ins.e then
-      let e' := min t.e ins.s
-      if t.s < e' then
-        let (r, ins') := before ts ins
-        ({ t with e := e' } :: r, ins')
-      else before ts { ins with comments := SortedVec.union ins.comments t.comments }
-    else before ts ins
+def mergeBuggy : List TimeRange → List TimeRange
+  | [] => []
+  | t :: ts => mergeBuggyLoop t ts
 
-/-- second pass of `insert` -/
-def after : List TimeRange → TimeRange → List TimeRange × TimeRange
-  | [], ins => ([], ins)
-  | t :: ts, ins =>
-    if t.e > ins.s then
-      let s' := max t.s ins.e
-      if s' < t.e then
-        let (r, ins') := after ts ins
-        ({ t with s := s' } :: r, ins')
-      else after ts { ins with comments := SortedVec.union ins.comments t.comments }
-    else after ts ins
+/-- the same loop with the one-line repair
+`inner[i].range.end = max(inner[i].range.end, inner[i + 1].range.end)` (the code as it is now) -/
+def mergeFixedLoop (cur : TimeRange) : List TimeRange → List TimeRange
+  | [] => [cur]
+  | u :: rest =>
+    if cur.e ≥ u.s then
+      mergeFixedLoop { cur with e := max cur.e u.e, comments := cunion cur.comments u.comments } rest
+    else cur :: mergeFixedLoop u rest
 
-/-- coalescing with the last ranges of `before` (given reversed) -/
-def absorbBefore : List TimeRange → TimeRange → List TimeRange × TimeRange
-  | [], ins => ([], ins)
-  | t :: ts, ins =>
-    if t.e == ins.s && t.kind == ins.kind then
-      absorbBefore ts { ins with s := t.s, comments := SortedVec.union t.comments ins.comments }
+def mergeFixed : List TimeRange → List TimeRange
+  | [] => []
+  | t :: ts => mergeFixedLoop t ts
+
+/-- `.filter(|range| range.start < range.end).map(|range| TimeRange { range, kind, comments })` -/
+def mkRanges (rs : List (Nat × Nat)) (k : Kind) (c : List String) : List TimeRange :=
+  (rs.filter (fun r => r.1 < r.2)).map (fun r => ⟨r.1, r.2, k, c⟩)
+
+/-- `Schedule::from_ranges` as it was written before the repair of line 95 -/
+def fromRangesBuggy (rs : List (Nat × Nat)) (k : Kind) (c : List String) : Schedule :=
+  mergeBuggy (sortByStart (mkRanges rs k c))
+
+/-- `Schedule::from_ranges` with the repaired merge loop -/
+def fromRangesFixed (rs : List (Nat × Nat)) (k : Kind) (c : List String) : Schedule :=
+  mergeFixed (sortByStart (mkRanges rs k c))
+
+/-- `Schedule::from_ranges`.  THE SWITCH (one line): `fromRangesFixed` mirrors the code since the
+repair of schedule.rs:95 (`max` of the two ends, /repo commit "fix: Schedule::from_ranges keeps the
+larger end when merging overlapping ranges"); `fromRangesBuggy` mirrors the code before it
+(defect D6) and is kept for the record and for the refutation theorem. -/
+def fromRanges (rs : List (Nat × Nat)) (k : Kind) (c : List String) : Schedule :=
+  fromRangesFixed rs k c
+
+/-! ### `insert` -/
+
+/-- the collected vector `before` of `insert`:
+`filter(start < ins_end)`, then `end = min(end, ins_start)`, kept if still non-empty -/
+def before (insS insE : Nat) : List TimeRange → List TimeRange
+  | [] => []
+  | t :: ts =>
+    if t.s < insE then
+      if t.s < min t.e insS then { t with e := min t.e insS } :: before insS insE ts
+      else before insS insE ts
+    else before insS insE ts
+
+/-- the side effect of the `before` pass on `ins_tr.comments`: ranges that become empty give their
+comments to the inserted range (`ins.comments.union(tr.comments)`), in order -/
+def beforeAbsorb (insS insE : Nat) (c : List String) : List TimeRange → List String
+  | [] => c
+  | t :: ts =>
+    if t.s < insE then
+      if t.s < min t.e insS then beforeAbsorb insS insE c ts
+      else beforeAbsorb insS insE (cunion c t.comments) ts
+    else beforeAbsorb insS insE c ts
+
+/-- the collected vector `after` of `insert`:
+`filter(end > ins_start)`, then `start = max(start, ins_end)`, kept if still non-empty -/
+def after (insS insE : Nat) : List TimeRange → List TimeRange
+  | [] => []
+  | t :: ts =>
+    if t.e > insS then
+      if max t.s insE < t.e then { t with s := max t.s insE } :: after insS insE ts
+      else after insS insE ts
+    else after insS insE ts
+
+/-- the side effect of the `after` pass on `ins_tr.comments` -/
+def afterAbsorb (insS insE : Nat) (c : List String) : List TimeRange → List String
+  | [] => c
+  | t :: ts =>
+    if t.e > insS then
+      if max t.s insE < t.e then afterAbsorb insS insE c ts
+      else afterAbsorb insS insE (cunion c t.comments) ts
+    else afterAbsorb insS insE c ts
+
+/-- first coalescing loop (`while before.last()…`), on the REVERSED `before` vector:
+returns the reversed remaining vector and the extended inserted range -/
+def coalesceBeforeRev (ins : TimeRange) : List TimeRange → List TimeRange × TimeRange
+  | [] => ([], ins)
+  | t :: ts =>
+    if t.e = ins.s ∧ t.kind = ins.kind then
+      coalesceBeforeRev { ins with s := t.s, comments := cunion t.comments ins.comments } ts
     else (t :: ts, ins)
 
-def absorbAfter : List TimeRange → TimeRange → List TimeRange × TimeRange
-  | [], ins => ([], ins)
-  | t :: ts, ins =>
-    if ins.e == t.s && t.kind == ins.kind then
-      absorbAfter ts { ins with e := t.e, comments := SortedVec.union t.comments ins.comments }
+/-- second coalescing loop (`while after.peek()…`): returns the remaining `after` and the
+extended inserted range -/
+def coalesceAfter (ins : TimeRange) : List TimeRange → List TimeRange × TimeRange
+  | [] => ([], ins)
+  | t :: ts =>
+    if ins.e = t.s ∧ t.kind = ins.kind then
+      coalesceAfter { ins with e := t.e, comments := cunion t.comments ins.comments } ts
     else (t :: ts, ins)
 
-/-- `Schedule::insert` -/
-def insert (s : Schedule) (ins : TimeRange) : Schedule :=
-  let (bef, ins1) := before s ins
-  let (aft, ins2) := after s ins1
-  let (befRev, ins3) := absorbBefore bef.reverse ins2
-  let (aft', ins4) := absorbAfter aft ins3
-  befRev.reverse ++ ins4 :: aft'
+/-- the inserted range after both filter passes: its comments have absorbed those of the ranges
+that the passes dropped -/
+def insAbsorbed (self : Schedule) (ins : TimeRange) : TimeRange :=
+  { ins with comments := afterAbsorb ins.s ins.e (beforeAbsorb ins.s ins.e ins.comments self) self }
 
-/-- `Schedule::addition`: pops the ranges of `other` from the end -/
-def addition (a : Schedule) (other : Schedule) : Schedule :=
-  other.reverse.foldl insert a
+/-- state after the first coalescing loop: (reversed `before`, inserted range) -/
+def insStage1 (self : Schedule) (ins : TimeRange) : List TimeRange × TimeRange :=
+  coalesceBeforeRev (insAbsorbed self ins) (before ins.s ins.e self).reverse
 
-/-- the `while let Some(next_range) = self.ranges.peek()` loop of `IntoIter::next`;
-returns the yielded range and the remaining ranges -/
-def extend : TimeRange → List TimeRange → TimeRange × List TimeRange
-  | y, [] => (if y.kind == .closed then { y with e := 1440 } else y, [])
-  | y, n :: rest =>
-    if n.s > y.e ∧ y.kind != .closed then (y, n :: rest)
-    else
-      let y1 := if n.s > y.e then { y with e := n.s } else y
-      if y1.kind != n.kind then (y1, n :: rest)
-      else extend { y1 with e := n.e, comments := SortedVec.union y1.comments n.comments } rest
+/-- state after the second coalescing loop: (`after`, inserted range) -/
+def insStage2 (self : Schedule) (ins : TimeRange) : List TimeRange × TimeRange :=
+  coalesceAfter (insStage1 self ins).2 (after ins.s ins.e self)
 
-/-- `IntoIter` collected.  `pre_yield`'s `assert!(start < end, "infinite loop detected")` is the
-only panic site; `iterAux` stops there and reports it. -/
-def iterAux : Nat → Nat → List TimeRange → List TimeRange × Bool
-  | 0, _, _ => ([], true)                      -- fuel exhausted: counted as the panic outcome
-  | fuel + 1, lastEnd, ranges =>
-    if lastEnd ≥ 1440 then ([], false)
-    else
-      let (y0, rest0) : TimeRange × List TimeRange :=
-        match ranges with
-        | r :: rest => if r.s == lastEnd then (r, rest) else (⟨lastEnd, r.s, .closed, []⟩, r :: rest)
-        | [] => (⟨lastEnd, lastEnd, .closed, []⟩, [])
-      let (y, rest) := extend y0 rest0
-      if y.s < y.e then
-        let (out, p) := iterAux fuel y.e rest
-        (y :: out, p)
-      else ([], true)
+/-- `Schedule::insert` (private): `before`, then the inserted range, then `after` -/
+def insert (self : Schedule) (ins : TimeRange) : Schedule :=
+  (insStage1 self ins).1.reverse ++ (insStage2 self ins).2 :: (insStage2 self ins).1
 
-def iterFull (s : Schedule) : List TimeRange × Bool := iterAux (2 * s.length + 2) 0 s
+/-! ### `addition` -/
 
-def iter (s : Schedule) : List TimeRange := (iterFull s).1
-def iterPanics (s : Schedule) : Bool := (iterFull s).2
+/-- `addition` with `other` given in REVERSE order: `other.inner.pop()` takes the last range first -/
+def additionRev (self : Schedule) : List TimeRange → Schedule
+  | [] => self
+  | tr :: rest => additionRev (insert self tr) rest
+
+/-- `Schedule::addition(self, other)` -/
+def addition (self other : Schedule) : Schedule := additionRev self other.reverse
+
+/-- `Schedule::is_always_closed` -/
+def isAlwaysClosed (s : Schedule) : Bool := s.all (fun rg => rg.kind == Kind.closed)
+
+/-! ### `IntoIter` -/
+
+/-- `ExtendedTime::MIDNIGHT_24` in minutes -/
+abbrev midnight24 : Nat := 1440
+
+/-- `schedule::IntoIter`; `ranges` is what remains in the peekable iterator -/
+structure IterState where
+  lastEnd : Nat
+  ranges : List TimeRange
+  deriving Repr
+
+/-- `IntoIter::new` -/
+def IterState.new (s : Schedule) : IterState := ⟨0, s⟩
+
+/-- the `while let Some(next_range) = self.ranges.peek()` loop of `next`, including the code after
+the loop ("extend with the last hole").  Returns the range handed to `pre_yield` and what remains
+in `self.ranges`. -/
+def extendHole (y n : TimeRange) : TimeRange :=
+  if n.s > y.e then { y with e := n.s } else y
+
+def nextLoop (y : TimeRange) : List TimeRange → TimeRange × List TimeRange
+  | [] => (if y.kind = Kind.closed then { y with e := midnight24 } else y, [])
+  | n :: rest =>
+    if n.s > y.e ∧ y.kind ≠ Kind.closed then (y, n :: rest)          -- range before the hole is not closed
+    -- otherwise "just extend the closed range with this hole" (`extendHole`)
+    else if (extendHole y n).kind ≠ n.kind then (extendHole y n, n :: rest)   -- next range has a different state
+    else nextLoop ⟨(extendHole y n).s, n.e, (extendHole y n).kind, cunion (extendHole y n).comments n.comments⟩ rest
+
+inductive NextResult where
+  /-- `None`: iteration ended -/
+  | done
+  /-- `Some(value)` and the new iterator state -/
+  | yield (value : TimeRange) (st : IterState)
+  /-- the `assert!` of `pre_yield` failed (schedule.rs:243 "infinite loop detected") -/
+  | panic (value : TimeRange)
+  deriving Repr
+
+/-- the range `next` starts from, and the remaining ranges -/
+def nextStart (st : IterState) : TimeRange × List TimeRange :=
+  match st.ranges with
+  | [] => (⟨st.lastEnd, st.lastEnd, Kind.closed, []⟩, [])      -- hole, `next_start.unwrap_or(self.last_end)`
+  | n :: rest =>
+    if n.s = st.lastEnd then (n, rest)                           -- start from an interval
+    else (⟨st.lastEnd, n.s, Kind.closed, []⟩, n :: rest)         -- start from a hole
+
+/-- the range handed to `pre_yield` and what remains in `self.ranges` -/
+def nextRaw (st : IterState) : TimeRange × List TimeRange :=
+  nextLoop (nextStart st).1 (nextStart st).2
+
+/-- `IntoIter::next` followed by `pre_yield` -/
+def next (st : IterState) : NextResult :=
+  if st.lastEnd ≥ midnight24 then NextResult.done
+  else if (nextRaw st).1.s < (nextRaw st).1.e then
+    NextResult.yield (nextRaw st).1 ⟨(nextRaw st).1.e, (nextRaw st).2⟩
+  else NextResult.panic (nextRaw st).1
+
+theorem extendHole_s (y n : TimeRange) : (extendHole y n).s = y.s := by
+  unfold extendHole; split <;> rfl
+
+theorem nextLoop_s (y : TimeRange) (rs : List TimeRange) : (nextLoop y rs).1.s = y.s := by
+  fun_induction nextLoop y rs <;> (try split) <;> simp_all [extendHole_s]
+
+theorem nextStart_s (st : IterState) : (nextStart st).1.s = st.lastEnd := by
+  unfold nextStart; split <;> (try split) <;> simp_all
+
+/-- every successful `next` moves `last_end` forward (this is what the `assert!` guarantees) -/
+theorem next_progress (st : IterState) (v : TimeRange) (st' : IterState)
+    (h : next st = NextResult.yield v st') : st.lastEnd < st'.lastEnd ∧ st.lastEnd < midnight24 := by
+  unfold next at h
+  split at h
+  · cases h
+  · split at h
+    · rename_i h1 h2
+      cases h
+      have e : (nextRaw st).1.s = st.lastEnd := by rw [nextRaw, nextLoop_s, nextStart_s]
+      rw [e] at h2
+      simp only [midnight24] at *; omega
+    · cases h
+
+/-- collecting the iterator: the yielded ranges and whether the `assert!` fired.
+Terminates because `last_end` strictly increases up to 24:00 (measure `1440 - last_end`). -/
+def iterFrom (st : IterState) : List TimeRange × Bool :=
+  match _h : next st with
+  | NextResult.done => ([], false)
+  | NextResult.panic _ => ([], true)
+  | NextResult.yield v st' =>
+    let r := iterFrom st'
+    (v :: r.1, r.2)
+termination_by midnight24 - st.lastEnd
+decreasing_by
+  have := next_progress st v st' _h
+  omega
+
+/-- `schedule.into_iter().collect()`: the ranges yielded (before the panic, if any) -/
+def iter (s : Schedule) : List TimeRange := (iterFrom (IterState.new s)).1
+
+/-- does `schedule.into_iter()` hit the `assert!` of `pre_yield`? -/
+def iterPanics (s : Schedule) : Bool := (iterFrom (IterState.new s)).2
 
 end Schedule
+
+/-! ### the macro `schedule!` -/
+
+/-- one `{time} => {state}, comments… => {time}` link of the macro: kind, comment literals, end -/
+abbrev MacroLink := Kind × List String × Nat
+
+/-- the macro `schedule!`: each sequence `t0 => k1 => t1 => k2 => t2 …` adds
+`from_ranges([prev..curr], kind, vec![comments].into())` to the schedule, left to right.
+(`ExtendedTime::new(..).expect(..)` of the macro is outside this model: times are given in minutes.) -/
+def scheduleMacro (seqs : List (Nat × List MacroLink)) : Schedule :=
+  seqs.foldl (fun sch sq =>
+    (sq.2.foldl (fun (acc : Schedule × Nat) (ln : MacroLink) =>
+      (Schedule.addition acc.1 (Schedule.fromRanges [(acc.2, ln.2.2)] ln.1 (SortedVec.fromVec ln.2.1)), ln.2.2))
+      (sch, sq.1)).1) Schedule.new
+
+/-! ### `utils/range.rs` -/
+
+/-- the `while let Some(item) = ranges.next()` loop inside the `from_fn` closure of `ranges_union`,
+unrolled over all calls of the closure: `cur` is `current_opt` -/
+def rangesUnionLoop (cur : Nat × Nat) : List (Nat × Nat) → List (Nat × Nat)
+  | [] => [cur]
+  | item :: rest =>
+    if cur.2 ≥ item.1 then
+      rangesUnionLoop (if item.2 > cur.2 then (cur.1, item.2) else cur) rest
+    else cur :: rangesUnionLoop item rest
+
+def sortPairInsert (x : Nat × Nat) : List (Nat × Nat) → List (Nat × Nat)
+  | [] => [x]
+  | y :: ys => if y.1 < x.1 then y :: sortPairInsert x ys else x :: y :: ys
+
+/-- `ranges.sort_unstable_by(|r1, r2| r1.start.cmp(&r2.start))` (stable insertion sort; here the
+order of equal starts does not influence the result, see `OH.Props.C14.rangesUnion_covers`) -/
+def sortPairs : List (Nat × Nat) → List (Nat × Nat)
+  | [] => []
+  | x :: xs => sortPairInsert x (sortPairs xs)
+
+/-- `ranges_union(ranges).collect()`.  Note: empty and inverted input ranges are NOT removed. -/
+def rangesUnion (rs : List (Nat × Nat)) : List (Nat × Nat) :=
+  match sortPairs rs with
+  | [] => []
+  | cur :: rest => rangesUnionLoop cur rest
+
+/-- `range_intersection(range_1, range_2)` -/
+def rangeIntersection (a b : Nat × Nat) : Option (Nat × Nat) :=
+  let result := (max a.1 b.1, min a.2 b.2)
+  if result.1 < result.2 then some result else none
+
+/-- `RangeInclusive::wrapping_contains(&self, elt)` for `self = lo..=hi` -/
+def wrappingContains {α : Type} [LE α] [DecidableRel (α := α) (· ≤ ·)] (lo hi x : α) : Bool :=
+  if lo ≤ hi then decide (lo ≤ x ∧ x ≤ hi)
+  else decide (lo ≤ x ∨ x ≤ hi)
+
 end OH.Model
